@@ -167,6 +167,11 @@ def gen_cases(ctx, rng):
         ty = rng.choice(["latency", "slicer"])
         tox0 = rng.choice([0, 0.25, 0.5])
         at0 = {f: rng.choice([5, 60, 700]) for f in A.TOXIC_FIELDS[ty]}
+        if j % 3 == 2:
+            # values that binary floating point cannot hold: what an update does not mention must come back digit for digit
+            for f in A.TOXIC_FIELDS[ty]:
+                at0[f] = rng.choice([9007199254740993, (1 << 62) + 1, 4611686018427387905, 123456789012345679])
+            stats["directed_above_2_53"] = stats.get("directed_above_2_53", 0) + 1
         f1 = rng.choice(A.TOXIC_FIELDS[ty])
         newv = rng.choice([1, 33, 9000])
         L0 = "127.0.0.1:%d" % b
